@@ -8,6 +8,8 @@ def random_history(rng, length):
     lo, hi = H.random_box(rng, n, nice=rng.random() < 0.4)
     if rng.random() < 0.15:
         lo, hi = [-0.5] * n, [0.5] * n
+    elif rng.random() < 0.2:      # the first box given as python ints (as the project's own tests do); later SetBounds calls give real bounds
+        lo, hi = [-1] * n, [rng.choice([1, 2])] * n
     cur = (lo, hi)
     ops = []
     xs = [rng.random() for _ in range(3)] + [0.0, 1.0, 0.5]
@@ -90,10 +92,22 @@ def solver_evolvent_pure(case):
     def ask(ev):
         return [tuple(float(v) for v in ev.GetImage(x)) for x in xs] + [float(ev.GetInverseImage(np.array(y, dtype=np.double))) for y in ys]
     before = ask(s.evolvent)
-    sol, out = H.run_script(s, [('iter', 7), ('solve',)])
+    from iOpt.method.listener import Listener
+    handed = []      # (the array object a listener was given as a trial's point, its content at that time, the trial's curve coordinate)
+
+    class Keep(Listener):
+        def OnEndIteration(self, pts, sol=None):
+            for q in pts:
+                a = q.GetY().floatVariables
+                handed.append((a, [float(v) for v in a], q.GetX()))
+    s.AddListener(Keep())
+    sol, out = H.run_script(s, [('iter', 7), ('refine', 25), ('iter', 6), ('solve',)])
     after = ask(s.evolvent)
     fresh = ask(Evolvent(case['lo'], case['hi'], case['n'], case['density']))
     fails = []
+    for a, was, x in handed:
+        if [float(v) for v in a] != was:
+            fails.append('the point array handed to a listener for the trial at x=%r was changed afterwards: %r -> %r' % (x, was, [float(v) for v in a])); break
     if before != after:
         k = next(i for i in range(len(before)) if before[i] != after[i])
         fails.append('the solver\'s evolvent answers query %d differently after the search (%r -> %r; N=%d, density %d, %d trials)' % (k, before[k], after[k], case['n'], case['density'], len(p.log)))
